@@ -87,7 +87,7 @@ def main():
                     b = sh("cargo build --release --offline --lib 2>&1", cwd=WT)
                     if b.returncode != 0:
                         return None
-                    r = sh("%s %s/demo.py %s 2>&1" % (sys.executable, d, so), cwd=WT, timeout=600)
+                    r = sh("PPG2_SO=%s %s %s/demo.py %s 2>&1" % (so, sys.executable, d, so), cwd=WT, timeout=600)
                     return r.returncode
 
                 sh("git checkout -q -- . ; git clean -fdq -e target", cwd=WT)
